@@ -93,6 +93,10 @@ class DriverListener:
         fn = self.cur(I)
         log(st, 'SEEK', root, off, whence, nloc(node), fn['q'] if fn else '?')
 
+    def on_ftruncate(self, I, st, node, root, length):
+        fn = self.cur(I)
+        log(st, 'TRUNC', root, length, nloc(node), fn['q'] if fn else '?')
+
     def on_fclose(self, I, st, node, root, fval):
         log(st, 'CLOSE', root, nloc(node))
 
@@ -400,7 +404,7 @@ class Driver:
         return list(range(1, self.tmax + 1))
 
 
-def accesses(st, kinds=('W', 'R', 'SEEK', 'PIPE', 'HASHFILE', 'HBUF', 'CLOSE', 'HASHSTR', 'NULLDEREF', 'STREAM', 'VERIFYRET')):
+def accesses(st, kinds=('W', 'R', 'SEEK', 'PIPE', 'HASHFILE', 'HBUF', 'CLOSE', 'HASHSTR', 'NULLDEREF', 'STREAM', 'VERIFYRET', 'TRUNC')):
     return [e for e in st.comps.get('log', ()) if e[0] in kinds]
 
 
